@@ -1126,9 +1126,16 @@ class Inliner:
             allnames = set()
             for v_ in baseline().values():
                 allnames |= set(v_)
+            battrs_ = baseline_attrs() or set()
+            import builtins as _b
+            stop_ = set()
+            for t_ in (dict, list, str, bytes, bytearray, set, tuple, int, float, object):
+                stop_ |= set(dir(t_))
             for n_ in list(self.foreign):
-                if n_ in allnames:
-                    self.foreign.pop(n_)        # a pinned function of that name exists somewhere: ambiguous
+                if n_ in allnames or n_ in battrs_ or n_ in stop_:
+                    # a pinned function / an attribute name already in use / a method of a built-in type carries that
+                    # name: `x.name(...)` need not be a call of the new helper
+                    self.foreign.pop(n_)
         self.modnames = set()
         for st in tree.body:
             if isinstance(st, ast.Import):
@@ -1145,6 +1152,16 @@ class Inliner:
                             m.name.startswith("__") and m.name.endswith("__")):
                         if not any(isinstance(d, ast.Name) and d.id == "property" for d in m.decorator_list):
                             self.methods.setdefault(m.name, []).append((st.name, m))
+
+    def common_attr_names(self):
+        """names that `obj.name(...)` may mean without being a later-introduced helper: attribute names in use at the
+        pinned commit and methods of the built-in types"""
+        if getattr(self, "_common", None) is None:
+            c = set(baseline_attrs() or ())
+            for t_ in (dict, list, str, bytes, bytearray, set, tuple, int, float, object):
+                c |= set(dir(t_))
+            self._common = c
+        return self._common
 
     def target(self, call):
         """(FunctionDef, skip_self) for a call to a new helper, else None"""
@@ -1164,7 +1181,7 @@ class Inliner:
             return self.funcs[f.id], False
         if isinstance(f, ast.Attribute) and f.attr in self.methods and len(self.methods[f.attr]) == 1:
             if isinstance(f.value, ast.Name) and f.value.id not in ("self", "cls") and f.value.id != self.methods[f.attr][0][0] \
-                    and f.value.id not in self.modnames:
+                    and f.value.id not in self.modnames and f.attr not in self.common_attr_names():
                 # `obj.helper(...)` with a plain local as receiver: the helper's `self` is that object
                 fd = self.methods[f.attr][0][1]
                 if any(isinstance(d, ast.Name) and d.id in ("staticmethod", "classmethod") for d in fd.decorator_list):
